@@ -3,6 +3,7 @@ package vsched
 import (
 	"fmt"
 	"sort"
+	"syscall"
 	"time"
 )
 
@@ -129,7 +130,7 @@ func Explore(cfg Config, body func(ex *Exec) string) Result {
 		}
 		if cfg.MaxExec > 0 && res.Executions >= cfg.MaxExec {
 			res.Cap = fmt.Sprintf("execution cap %d", cfg.MaxExec)
-		} else if !cfg.Deadline.IsZero() && time.Now().After(cfg.Deadline) {
+		} else if !cfg.Deadline.IsZero() && BudgetNow().After(cfg.Deadline) {
 			res.Cap = "time budget"
 		}
 		if res.Cap != "" {
@@ -260,4 +261,24 @@ func RunOnce(horizonS int, body func(ex *Exec) string) (failures []Failure, out 
 	defer func() { active = 0 }()
 	ex, out := runOne(Config{HorizonS: horizonS}, nil, nil, false, body)
 	return ex.failures, out
+}
+
+var procStart = time.Now()
+
+// BudgetNow is the clock that time budgets are measured against: the start of the (single-threaded) worker process
+// plus the CPU time it has consumed since, so that a loaded machine changes how long a check takes and not how much
+// of its space it explores. It never falls behind the wall clock by more than a factor of three (a worker that
+// sleeps or is starved still ends).
+func BudgetNow() time.Time {
+	var ru syscall.Rusage
+	t := procStart
+	if err := syscall.Getrusage(syscall.RUSAGE_SELF, &ru); err == nil {
+		t = procStart.Add(time.Duration(ru.Utime.Nano() + ru.Stime.Nano()))
+	} else {
+		return time.Now()
+	}
+	if floor := procStart.Add(time.Since(procStart) / 3); floor.After(t) {
+		t = floor
+	}
+	return t
 }
